@@ -34,6 +34,7 @@ type Ctx struct {
 	samples    []any
 	distinct   map[[16]byte]struct{}
 	nontrivial int64
+	extDistinct int64
 	outcomes   map[string]int64
 	known      []Finding
 	knownHit   map[string]int64
@@ -321,7 +322,7 @@ func (c *Ctx) Finish() int {
 	cov["transitions"] = c.Trans
 	cov["traces_validated_against_impl"] = c.Validated
 	cov["distinct_nontrivial"] = c.nontrivial
-	cov["distinct_cases"] = len(c.distinct)
+	cov["distinct_cases"] = int64(len(c.distinct)) + c.extDistinct
 	cov["exhaustive"] = c.Exhaustive
 	cov["distinct_outcomes"] = len(c.outcomes)
 	cov["outcomes"] = c.outcomes
@@ -424,4 +425,13 @@ func LoadFindings(path string) []Finding {
 		out = append(out, f)
 	}
 	return out
+}
+
+// AddNontrivial adds counts measured by an in-process driver (which keeps its
+// own set of distinct cases).
+func (c *Ctx) AddNontrivial(distinct, nontrivial int64) {
+	c.mu.Lock()
+	c.extDistinct += distinct
+	c.nontrivial += nontrivial
+	c.mu.Unlock()
 }
